@@ -323,10 +323,11 @@ func (w *world) batch() {
 	w.label("batch")
 	n := 2 + w.draw("bn", 3)
 	var reqs []*batchReq
+	focus := w.drawDst("bfocus") // most CONNECTs of a batch go to one destination so that they contend
 	// connections are chosen (and opened if needed) before the instant of the race
 	for i := 0; i < n; i++ {
 		r := &batchReq{}
-		if w.draw("bkind", 100) < 45 {
+		if w.draw("bkind", 100) >= 60 {
 			r.kind = "reserve"
 			r.p = w.drawPeer("bp")
 			r.cs = w.drawConn(r.p, "bc")
@@ -334,7 +335,10 @@ func (w *world) batch() {
 			r.kind = "connect"
 			r.p = w.drawPeer("bs")
 			r.cs = w.drawConn(r.p, "bc")
-			r.dst = w.drawDst("bd")
+			r.dst = focus
+			if w.draw("bfocus?", 100) >= 70 {
+				r.dst = w.drawDst("bd")
+			}
 			r.reply = []string{"ok", "ok", "ok", "status", "reset"}[w.draw("breply", 5)]
 		}
 		reqs = append(reqs, r)
@@ -370,6 +374,43 @@ func (w *world) batch() {
 			if r.reply != "ok" {
 				w.sawFault = true
 			}
+		}
+	}
+	// coverage: does the batch contend for a counter (more plausible grants than room)?
+	{
+		want := map[*peerSt]int{}
+		for _, r := range reqs {
+			if r.kind == "connect" && r.pre.dstMay && !r.pre.relayed && r.pre.acl && r.reply == "ok" {
+				want[r.p]++
+				if r.dst != r.p {
+					want[r.dst]++
+				}
+			}
+		}
+		for p, n := range want {
+			if n >= 2 {
+				w.label("batch:circuits-shared-party")
+			}
+			if n >= 2 && w.openCount(p, false)+n > w.cfg.MaxCirc {
+				w.label("batch:circuits-contended")
+			}
+		}
+		nres := 0
+		askers := map[*peerSt]bool{}
+		for _, r := range reqs {
+			if r.kind == "reserve" && !r.wasMay && !askers[r.p] && !tpls[r.cs.tpl].relayed && w.aclReserve(r.p, r.cs) {
+				askers[r.p] = true
+				nres++
+			}
+		}
+		live := 0
+		for _, p := range w.peers {
+			if w.mustLive(p, at) {
+				live++
+			}
+		}
+		if nres >= 2 && live+nres > w.cfg.MaxRes {
+			w.label("batch:reservations-contended")
 		}
 	}
 	for _, r := range reqs {
@@ -524,7 +565,7 @@ func (w *world) run() {
 
 func TestRelayHistories(t *testing.T) {
 	name := t.Name()
-	hx.Check(t, 24000, 1200000, 0, func(rt *rapid.T) {
+	hx.Check(t, 24000, 2000000, 0, func(rt *rapid.T) {
 		cfg := drawConfig(rt)
 		var w *world
 		hx.Bubble(t, rt, func() {
